@@ -203,3 +203,6 @@ def run(ctx):
     ops = table_ops(F)
     bad = [(fid, n) for fid, bi, n in ops if n not in ALLOWED_NONGROWTH and n not in ('insert', 'entry') and n not in ENTRY_ABSENT_ONLY]
     rep.check(r4, bool(ops) and not bad, 'table-ops', 'operations on the connection table crate-wide: %s' % sorted(set(n for _, _, n in ops)))
+    hand_over_sound(ctx, 'C07')
+
+
